@@ -823,6 +823,16 @@ func (t *tree) boolAttr(attrs map[string]string, key string, defaultValue bool) 
 func (t *tree) parseQuotedExpr(str string) ast.Node {
 	var tt = &tree{lex: lexExpr("", str)}
 	defer tt.lex.drain()
+	defer func() {
+		// the inner parser knows neither the file name nor where the expression
+		// sits in the file: report its error at the tag that contains it.
+		if e := recover(); e != nil {
+			if _, ok := e.(runtime.Error); ok {
+				panic(e)
+			}
+			t.errorf("in expression %q: %v", str, e)
+		}
+	}()
 	return tt.parseExpr(0)
 }
 
